@@ -90,6 +90,14 @@ PrimaryKinds == {"name", "num", "str", "sym", "vararg", "chain", "table", "func"
 (* Generators only emit faithful trees; a non-faithful tree is one that     *)
 (* cannot be the result of parsing anything.                                *)
 (***************************************************************************)
+(* the printed form of t ends with a construct of this kind (not closed by a parenthesis) *)
+RECURSIVE EndsWith(_, _)
+EndsWith(t, kind) ==
+  CASE t.k = kind  -> TRUE
+    [] t.k = "bin" -> EndsWith(t.c[2], kind)
+    [] t.k = "un"  -> EndsWith(t.c[1], kind)
+    [] OTHER       -> FALSE
+
 RECURSIVE Faithful(_)
 Faithful(t) ==
   CASE t.k = "bin" ->
@@ -98,7 +106,8 @@ Faithful(t) ==
          /\ (l.k = "bin" => \/ Prec(l.a) > Prec(o)
                             \/ Prec(l.a) = Prec(o) /\ ~RAssoc(o))
          /\ (l.k = "un"  => UnPrec > Prec(o))               \* (-a) ^ b needs its parentheses
-         /\ l.k # "ifexp"                                    \* an if-expression swallows the operator
+         /\ ~EndsWith(l, "ifexp")                            \* an if-expression swallows what follows its else
+         /\ (o = "<" => ~EndsWith(l, "cast"))                 \* `x :: T < y` starts a generic argument list
          /\ (r.k = "bin" => \/ Prec(r.a) > Prec(o)
                             \/ Prec(r.a) = Prec(o) /\ RAssoc(o))
     [] t.k = "un"   -> LET e == t.c[1] IN
